@@ -23,7 +23,9 @@ META = {
     "a raw body is output verbatim up to the documented effect of its own tags' modifiers. (c) every string of <= 3 "
     "(thorough 4) symbols over {a < > & ' \" space \\n} as template text and as raw body, next to a {{ x }} output, at "
     "top level and inside {% autoescape true|false|flag %} (flag True/False), in environments with autoescape off and "
-    "on: the text/raw body is verbatim in every mode, only the value of x is escaped where the region is on.",
+    "on: the text/raw body is verbatim in every mode, only the value of x is escaped where the region is on; texts of "
+    "<= 2 symbols are additionally rendered with Environment(finalize=...) as a plain, @pass_environment, @pass_context "
+    "and @pass_eval_context callable that rewrites every value: only the value of x is finalized.",
     "note": "Bounded lengths; at the longest length only the parse result is compared in all six configurations "
     "(thorough additionally renders that length under newline_sequence='\\r\\n'); for the longest bodies only a "
     "sub-grid of modifiers/settings is used (see bounds). 'Terminator' is decided by an independent regular "
@@ -290,11 +292,49 @@ ESC_MODES = [
 ]
 
 
+def _wrap(v):
+    return "[%s]" % (v,)
+
+
+def finalizers():
+    """Environment(finalize=...) variants; each rewrites every value it is given.  The documentation: finalize
+    processes 'the result of a variable expression before it is output' - template text is not one."""
+    import jinja2
+
+    @jinja2.pass_environment
+    def fin_env(env, v):
+        return _wrap(v)
+
+    @jinja2.pass_context
+    def fin_ctx(ctx, v):
+        return _wrap(v)
+
+    @jinja2.pass_eval_context
+    def fin_eval(ectx, v):
+        return _wrap(v)
+
+    return [("none", None), ("plain", _wrap), ("pass_environment", fin_env), ("pass_context", fin_ctx),
+            ("pass_eval_context", fin_eval)]
+
+
+def _finalized_text_prediction(text, on):
+    """What comes out when the template text itself is (wrongly) handed to finalize and, where the region is on,
+    escaped as an ordinary value.  Only used to give that one behaviour a single signature, never as the oracle."""
+    import markupsafe
+
+    e = (lambda v: str(markupsafe.escape(v))) if on else (lambda v: v)
+    return e(_wrap(text)) + e(_wrap(X_VALUE)) + e(_wrap(text)) + "."
+
+
+FIN_MAX_SYMBOLS = 2  # finalize variants are combined with texts of at most this many symbols
+
+
 def esc_shard(arg) -> core.Part:
     from jinja2 import Environment
 
     first, lengths = arg
     p = core.Part()
+    fins = finalizers()
     for n in lengths:
         rest = n - len(first)
         if rest < 0:
@@ -307,25 +347,34 @@ def esc_shard(arg) -> core.Part:
                     src = opening + piece + "{{ x }}" + piece + closing + "."
                     for env_auto in (False, True):
                         on = env_auto if region is None else region
-                        exp = text + (X_ESCAPED if on else X_VALUE) + text + "."
-                        p.evals += 1
-                        try:
-                            got = Environment(autoescape=env_auto).from_string(src).render(x=X_VALUE, **kwargs)
-                        except Exception as e:  # noqa: BLE001
-                            got = ("exc", type(e).__name__, str(e))
-                        if any(c in text for c in "<>&'\""):
-                            p.sig(("esc", place, label, env_auto, "".join(sorted(set(text) & set("<>&'\"")))))
-                        if got != exp:
-                            k2 = "raises" if isinstance(got, tuple) else "output"
-                            p.violation(f"C11/autoescape-{place}/{k2}/{label}/env={int(env_auto)}", {
-                                "msg": f"source {src!r} Environment(autoescape={env_auto}) render(x={X_VALUE!r}, "
-                                       f"**{kwargs!r}): got {got!r}, expected {exp!r} (template text / raw body verbatim)",
-                                "source": src, "got": repr(got), "expected": exp, "size": len(src),
-                                "script": "import jinja2\n"
-                                          f"env = jinja2.Environment(autoescape={env_auto})\n"
-                                          f"print(repr(env.from_string({src!r}).render(x={X_VALUE!r}, **{kwargs!r})))\n"
-                                          f"print('expected', {exp!r})\n",
-                            })
+                        for fname, fin in (fins if n <= FIN_MAX_SYMBOLS else fins[:1]):
+                            xval = (X_ESCAPED if on else X_VALUE)
+                            exp = text + (xval if fin is None else _wrap(xval)) + text + "."
+                            p.evals += 1
+                            try:
+                                got = Environment(autoescape=env_auto, finalize=fin).from_string(src).render(x=X_VALUE, **kwargs)
+                            except Exception as e:  # noqa: BLE001
+                                got = ("exc", type(e).__name__, str(e))
+                            if fin is not None or any(c in text for c in "<>&'\""):
+                                p.sig(("esc", place, label, env_auto, fname, "".join(sorted(set(text) & set("<>&'\"")))))
+                            if got != exp:
+                                k2 = "raises" if isinstance(got, tuple) else "output"
+                                fam = "autoescape" if fin is None else "finalize=" + fname
+                                sig = f"C11/{fam}-{place}/{k2}/{label}/env={int(env_auto)}"
+                                if fin is not None and label.startswith("flag-") and got == _finalized_text_prediction(text, on):
+                                    # one narrow signature for: template data inside {% autoescape <expr> %} goes through finalize
+                                    sig = "C11/volatile-autoescape/finalize-applied-to-template-data"
+                                p.violation(sig, {
+                                    "msg": f"source {src!r} Environment(autoescape={env_auto}, finalize={fname}) "
+                                           f"render(x={X_VALUE!r}, **{kwargs!r}): got {got!r}, expected {exp!r} "
+                                           "(template text / raw body verbatim; finalize = '[%s]' % value)",
+                                    "source": src, "got": repr(got), "expected": exp, "size": len(src),
+                                    "script": "import jinja2\nfrom checks import c11\n"
+                                              f"fin = dict(c11.finalizers())[{fname!r}]\n"
+                                              f"env = jinja2.Environment(autoescape={env_auto}, finalize=fin)\n"
+                                              f"print(repr(env.from_string({src!r}).render(x={X_VALUE!r}, **{kwargs!r})))\n"
+                                              f"print('expected', {exp!r})\n",
+                                })
             p.sample({"part": "c", "text": text,
                       "source": "{% autoescape flag %}" + text + "{{ x }}" + text + "{% endautoescape %}."}, cap=1)
     return p
@@ -379,6 +428,8 @@ def run(ctx: core.Ctx):
         "b_full_modifier_grid_upto_fragments": full_upto,
         "b_grid_full": "comment: 9 modifier pairs x 4 trim/lstrip settings; raw: 6 inner x 2 outer modifier combinations x 4 settings",
         "c_alphabet": [repr(x) for x in ESC_SYMS], "c_max_symbols": k_esc,
+        "c_finalize_variants": ["none", "plain", "pass_environment", "pass_context", "pass_eval_context"],
+        "c_finalize_max_symbols": FIN_MAX_SYMBOLS,
         "c_modes": [m[0] for m in ESC_MODES], "c_placements": ["text", "raw"], "c_env_autoescape": [False, True],
         "b_grid_longest": "comment: 3 modifier pairs x 2 settings; raw: 6 inner modifier combinations x 2 settings",
     }
